@@ -26,6 +26,11 @@ type Obj struct {
 	Val    Value
 	Frozen bool
 	Tag    string
+	// Poison: a package-level variable whose initial value the engine does not know
+	// (its package initialiser was not, or not completely, executed). Reading it
+	// before it is written aborts the path.
+	Poison  bool
+	Written bool
 }
 
 type Pointer struct {
@@ -389,6 +394,9 @@ func loadPtr(p Pointer) Value {
 	if p.O == nil {
 		panic(goPanic{"nil pointer dereference"})
 	}
+	if p.O.Poison {
+		panic(abort{"read of package-level variable with unknown initial value: " + p.O.Tag})
+	}
 	return copyVal(navigate(p.O.Val, p.Path))
 }
 
@@ -402,6 +410,8 @@ func storePtr(p Pointer, v Value) {
 	v = copyVal(v)
 	if len(p.Path) == 0 {
 		p.O.Val = v
+		p.O.Written = true
+		p.O.Poison = false
 		return
 	}
 	parent := navigate(p.O.Val, p.Path[:len(p.Path)-1]).(*Agg)
